@@ -21,7 +21,8 @@ import tempfile
 
 ROOT = os.path.dirname(os.path.dirname(os.path.abspath(__file__)))
 REPO = os.environ.get('VERIF_REPO', '/repo')
-TARGET = os.path.join(ROOT, 'build', 'replay-target')
+BUILD_DIR = os.environ.get('VERIF_BUILD', os.path.join(ROOT, 'build'))   # development only, as in run.py
+TARGET = os.path.join(BUILD_DIR, 'replay-target')
 _built = {}
 
 
@@ -212,7 +213,7 @@ def build_redo_bin():
         return _built['redo_bin']
     _built['redo_bin'] = None
     try:
-        tdir = os.path.join(ROOT, 'build', 'redo-target')
+        tdir = os.path.join(BUILD_DIR, 'redo-target')
         env = dict(os.environ, CARGO_NET_OFFLINE='true')
         p = subprocess.run(['cargo', 'build', '--offline', '--quiet', '--bin', 'redo', '--manifest-path', os.path.join(REPO, 'Cargo.toml'),
                             '--target-dir', tdir], capture_output=True, text=True, env=env, timeout=1200)
@@ -220,7 +221,7 @@ def build_redo_bin():
         if p.returncode != 0 or not os.path.exists(exe):
             _built['err'] = p.stderr[-1500:]
             return None
-        bindir = os.path.join(ROOT, 'build', 'redo-bin')
+        bindir = os.path.join(BUILD_DIR, 'redo-bin')
         shutil.rmtree(bindir, ignore_errors=True)
         os.makedirs(bindir)
         for n in ('redo redo-always redo-ifchange redo-ifcreate redo-log redo-ood redo-sources redo-stamp redo-targets '
@@ -544,6 +545,43 @@ def _stamp_pipe_failures():
         shutil.rmtree(work, ignore_errors=True)
     return fails, n
 
+
+def _corpus_failures(prop):
+    """Bounded: the demonstration scripts of the seeded changes kept for this property (seeded/<id>/demo/demo.sh, listed in
+    seeded/corpus.json with the clause each one checks).  Each is a concrete history with the real binaries that exits 0
+    when the property's clause holds on it; all of them pass on the unchanged tree (measured twice when the corpus was
+    built).  A script that exits non-zero is run a second time; only a repeated failure counts.  -> (failures, n) or None"""
+    cfile = os.path.join(ROOT, 'seeded', 'corpus.json')
+    if not os.path.exists(cfile):
+        return None
+    bindir = build_redo_bin()
+    if not bindir:
+        return None
+    exe = os.path.join(BUILD_DIR, 'redo-target', 'debug', 'redo')
+    env = {k: v for k, v in os.environ.items() if not k.startswith('REDO') and k != 'MAKEFLAGS'}
+    env['REDO_BIN'] = exe
+    env['TMPDIR'] = '/var/tmp'
+    fails, n = [], 0
+    for ent in json.load(open(cfile)):
+        if prop not in ent['props']:
+            continue
+        d = os.path.join(ROOT, 'seeded', ent['id'], 'demo')
+        n += 1
+        bad = 0
+        for attempt in (1, 2):
+            try:
+                r = subprocess.run(['sh', './demo.sh'], cwd=d, env=env, capture_output=True, text=True, timeout=300)
+                rc, tail = r.returncode, (r.stdout + r.stderr).strip()[-400:]
+            except subprocess.TimeoutExpired:
+                rc, tail = 124, 'timed out after 300 s'
+            if rc == 0:
+                break
+            bad += 1
+        if bad == 2:
+            fails.append(dict(input='seeded/%s/demo/demo.sh (the history is described in its README.md)' % ent['id'], observed='exit %d twice: ...%s' % (rc, tail),
+                              clause=ent['clause']))
+    return fails, n
+
 # ---------------------------------------------------------------- interface used by run.py
 def search(prop, violations, tier, seed):
     """attach a concrete failing input to a reported violation, if a probe covers its function"""
@@ -650,6 +688,11 @@ def conformance(prop, unit_names, pins_changed, labels_props):
             out.append(dict(oid='trusted/File::from_name/one_record_one_name_per_file', msg='clause fails on the real binaries for a concrete history (bounded probe names, %d histories)' % r[1],
                             where=REPO + '/src/state.rs:File::from_name', site=None, text=hits[0]['clause'], rendered=json.dumps(hits[:6], indent=1),
                             inputs=[h['input'] for h in hits], fn='from_name', label='one_record_one_name_per_file', props=[prop]))
+    if not out and unit_names:
+        r = _corpus_failures(prop)
+        for h in (r[0] if r else []):
+            out.append(dict(oid='corpus/%s/%s' % (h['input'].split('/')[1], 'history'), msg='a recorded history of this property fails on the real binaries (bounded probe corpus, %d histories)' % r[1],
+                            where=REPO, site=None, text=h['clause'], rendered=json.dumps(h, indent=1), inputs=[h['input']], fn='corpus', label='history', props=[prop]))
     if any(p.endswith('::deps') or p.endswith('::zap_deps1') or p.endswith('::zap_deps2') or p.endswith('::add_dep') for p in pins_changed):
         f = _deps_failures()
         if f:
